@@ -513,15 +513,30 @@ pub fn run_c17(rc: &RunCtx) -> Outcome {
             layouts.push(l);
         }
     }
+    // twins and aliases are named after their originals; where that makes two generated methods coincide
+    // (a field called set_f0 next to f0: the twins are f0t and set_f0t), the twins get neutral names
+    for (id, l) in layouts.iter_mut().enumerate() {
+        if model::rules::api_name_collision(l).is_some() && (id < n_twin_layouts || id >= n_before_debug) {
+            let n0 = l.fields.len() / 2;
+            for k in n0..l.fields.len() {
+                l.fields[k].name = format!("tw{}", k - n0);
+            }
+        }
+    }
+    let mut renamed_or_dropped = 0u64;
     let mut items = Vec::new();
     for (id, l) in layouts.iter().enumerate() {
+        if model::rules::api_name_collision(l).is_some() {
+            renamed_or_dropped += 1;
+            continue;
+        }
         if id < n_before_debug && !layout_verdict(l).is_valid() {
             inconclusive(&format!("generator bug: C17 layout {} not valid\n{}", id, render_layout(l, &ro)));
         }
         let mut probes = Vec::new();
         if id < n_twin_layouts || id >= n_before_debug {
             for (fi, f) in l.fields.iter().enumerate() {
-                let is_twin = f.name.ends_with('t') && f.access == Access::RW && l.fields.iter().any(|g| format!("{}t", g.name) == f.name);
+                let is_twin = fi >= l.fields.len() / 2 && f.access == Access::RW && (f.name.starts_with("tw") || l.fields.iter().any(|g| format!("{}t", g.name) == f.name));
                 if is_twin {
                     probes.extend(probes_for_field(l, fi, &format!("twin-{}", f.name), true, true));
                 } else {
@@ -632,6 +647,7 @@ pub fn run_c17(rc: &RunCtx) -> Outcome {
         "samples": samples,
         "exhaustive": false,
         "probe_histogram": hist,
+        "declarations_left_out_because_two_generated_method_names_coincide": renamed_or_dropped,
         "debug_declarations_with_unreadable_fields": layouts.len() - n_before_debug,
         "of_which_rejected_by_the_macro_as_expected": debug_rejected,
         "disagreements_checked": checked,
